@@ -635,3 +635,27 @@ pub fn run_replay(path: &str) -> i32 {
         0
     }
 }
+
+/// History hashes of the first `n` generated scenarios of a property, computed by `threads`
+/// workers (index i runs on worker i mod threads). Long C11 histories are skipped.
+pub fn digests(prop: &str, seed: u64, n: u64, threads: usize) -> Vec<u64> {
+    let out = Mutex::new(vec![0u64; n as usize]);
+    std::thread::scope(|scope| {
+        for t in 0..threads {
+            let out = &out;
+            scope.spawn(move || {
+                let mut idx = t as u64;
+                while idx < n {
+                    let i = if prop == "C11" { idx * 400 + 1 } else { idx };
+                    let mut rng = Rng::derive(seed, i, 0);
+                    let case = props::generate(prop, Tier::Quick, &mut rng, i);
+                    let j = judge(prop, &case.scenario, case.aux.as_ref());
+                    let h = fnv_of(&(j.hist_hash, j.interleaving, j.violations.len(), case.gen_hash));
+                    out.lock().unwrap()[idx as usize] = h;
+                    idx += threads as u64;
+                }
+            });
+        }
+    });
+    out.into_inner().unwrap()
+}
